@@ -142,6 +142,8 @@ void adapter_exec(Ev *ev)
         int kind = (int)ev->a[0], w = (int)ev->a[1], order = (int)ev->a[2], nb = (int)ev->a[3];
         const long long *lane = ev->a + 4;
         int mode = ev->na > 4 + nb ? (int)ev->a[4 + nb] : 0;
+        /* optional: part nparts - the exhaustive range is cut into nparts slices, this call does slice `part` */
+        uint64_t part = ev->na > 6 + nb ? (uint64_t)ev->a[5 + nb] : 0, nparts = ev->na > 6 + nb ? (uint64_t)ev->a[6 + nb] : 1;
         int t = find(kind, w);
         long long bad = 0;
         uint64_t count = 0;
@@ -155,7 +157,7 @@ void adapter_exec(Ev *ev)
             bad += check_one(t, order, kind, w, lane, (b + 3) % 8, ~((uint64_t)1 << b) & mask);
         }
         uint64_t lim = (w == 16 || mode == 0) ? 65536 : (mode == 1 ? ((uint64_t)1 << 24) : ((uint64_t)1 << (w < 32 ? w : 32)));
-        for (uint64_t x = 0; x < lim; x++, count++)
+        for (uint64_t x = part * (lim / nparts), xe = (part + 1 == nparts) ? lim : (part + 1) * (lim / nparts); x < xe; x++, count++)
             bad += check_one(t, order, kind, w, lane, (int)(x % 8), (x | (w > 16 ? (x << (w - 16)) : 0)) & mask);
         uint64_t r = 0x9E3779B97F4A7C15ull ^ ((uint64_t)kind << 40) ^ ((uint64_t)w << 20) ^ (uint64_t)order;
         for (int i = 0; i < 20000; i++, count++) {
